@@ -148,7 +148,7 @@ theorem element_uri_resolved_regardless (o : Ops) (c : Core) (el out0 : Str) (b 
 example :
     let o : Ops := { base := ⟨fun _ r => r, fun u => u, fun _ r => r⟩, join := fun _ u => u, fix := id, loose := false,
                      sanitize := fun _ x => x ++ S "+S", resolveMarkup := fun _ _ x => x ++ S "+R" }
-    let c : Core := { version := S "atom10", cp := some ⟨S "text/html", none, "", false⟩ }
+    let c : Core := { version := S "atom10", cp := some { type := S "text/html", lang := none, base := "", base64 := false } }
     ((contentOutput { o with sanitizeOn := true, resolveOn := true } c (S "subtitle") (S "v")).2,
      (contentOutput { o with sanitizeOn := false, resolveOn := true } c (S "subtitle") (S "v")).2,
      (contentOutput { o with sanitizeOn := true, resolveOn := false } c (S "subtitle") (S "v")).2,
